@@ -197,6 +197,7 @@ func (ss *segmentStack) startIterator(
 			if lowerLevelIter != nil {
 				k, v, err := lowerLevelIter.Current()
 				if err != nil && err != ErrIteratorDone {
+					lowerLevelIter.Close()
 					return nil, err
 				}
 				if err == ErrIteratorDone {
